@@ -1036,17 +1036,23 @@ func (h *harness) startCase(who int, max int, wq int) {
 	}
 }
 
-// tinyMax: a maximum below the SRTP overhead passes Start; every SRTP RTP write of the stream panics.
-func (h *harness) tinyMax(max int) {
-	name := fmt.Sprintf("tiny-max/%d", max)
-	cert := selfSigned()
-	s := &gortsplib.Server{RTSPAddress: "127.0.0.1:0", MaxPacketSize: max, TLSConfig: &tls.Config{Certificates: []tls.Certificate{cert}}}
+// tinyMax (regression for fix 5cb4d00): a maximum below the SRTP overhead (or a negative one) passes
+// Start; the RTP write of the stream must return an error, not panic in make([]byte, negative).
+func (h *harness) tinyMax(max int, secure bool) {
+	name := fmt.Sprintf("tiny-max/%d/secure=%v", max, secure)
+	s := &gortsplib.Server{RTSPAddress: "127.0.0.1:0", MaxPacketSize: max}
+	if secure {
+		cert := selfSigned()
+		s.TLSConfig = &tls.Config{Certificates: []tls.Certificate{cert}}
+	}
 	if err := s.Start(); err != nil {
 		h.ctx.Kind("tiny-max-rejected-at-start")
-		var c, o hx.L
-		c.N(1).N(1).Z(int64(max)).N(0)
-		o.N(1)
-		h.ctx.Corr(c.String(), o.String())
+		if max >= 0 {
+			var c, o hx.L
+			c.N(1).N(1).Z(int64(max)).N(0)
+			o.N(1)
+			h.ctx.Corr(c.String(), o.String())
+		}
 		return
 	}
 	defer s.Close()
@@ -1058,7 +1064,10 @@ func (h *harness) tinyMax(max int) {
 	}
 	defer st.Close()
 	var c, o hx.L
-	c.N(2).N(2).N(0).N(1).N(0).I(max).N(0).N(0).N(0).N(0).N(0)
+	c.N(2).N(2).N(0).B(secure).N(0)
+	if max >= 0 {
+		c.I(max).N(0).N(0).N(0).N(0).N(0)
+	}
 	var err error
 	pan := false
 	func() {
@@ -1077,11 +1086,17 @@ func (h *harness) tinyMax(max int) {
 	default:
 		o.N(0).N(999999)
 	}
-	ci := h.ctx.Corr(c.String(), o.String())
+	ci := -1
+	if max >= 0 {
+		ci = h.ctx.Corr(c.String(), o.String()) // a negative maximum has no encoding in the write case line
+	}
 	h.ctx.Eval()
-	h.ctx.Kind("tiny-max-srtp")
+	h.ctx.Kind("tiny-max")
+	h.ctx.Nontrivial(name)
 	if pan {
-		h.ctx.Failf(ci, "tiny-max-srtp-panic", c.String(), "MaxPacketSize=%d passes Start; ServerStream.WritePacketRTP with SRTP panics (make([]byte, %d))", max, max-10)
+		h.ctx.Failf(ci, "tiny-max-srtp-panic", name, "MaxPacketSize=%d (srtp %v) passes Start; ServerStream.WritePacketRTP panics (make([]byte, negative)) instead of returning an error", max, secure)
+	} else if err == nil {
+		h.ctx.Failf(ci, "tiny-max-accepted", name, "MaxPacketSize=%d (srtp %v): a 12-byte RTP packet was accepted", max, secure)
 	}
 }
 
@@ -1097,8 +1112,11 @@ func main() {
 		// a write case needs its session: replay re-runs the whole deterministic sweep
 		ctx.Extra("replay", "write cases are re-run by the full sweep (sessions are needed)")
 	}
-	// known shapes first
-	h.tinyMax(8)
+	// regression cases of the fixed defects first (ff7d2a8: MKI; 5cb4d00: tiny maxima)
+	h.tinyMax(8, true)
+	h.tinyMax(9, true)
+	h.tinyMax(-1, false)
+	h.tinyMax(-1, true)
 	h.clientRecord(1472, false, true, true)
 	h.clientRecord(1472, true, true, true)
 
